@@ -183,7 +183,7 @@ def h_connect(ctx):
             raise
         except Exception as e:  # pylint: disable=broad-except
             outcome = "error:" + type(e).__name__
-            ctx.log("err", str(e)[:200])
+            ctx.log("err", type(e).__name__)
     ctx.log("outcome", [outcome, stuck, list(perm)])
     ctx.cover("outcome:" + outcome.split(":")[0])
     sig = spec.get("name", "") + ":" + "".join(map(str, perm))
